@@ -106,10 +106,10 @@ def mtime_seen(case):
     return int(case['mtime'] + 1e-9 * case['frac'])
 
 
-def st(file, mtime=1700000000, frac=0, method='GET', rng=None, ims=None, delta=None, tz=None, via='direct', prev=None, kw=None, setup=None):
+def st(file, mtime=1700000000, frac=0, method='GET', rng=None, ims=None, delta=None, tz=None, via='direct', prev=None, kw=None, setup=None, interleave=False):
     """ims: literal header or None; delta: if not None the header is a well-formed date mtime+delta (format in ims)"""
     return dict(kind='static', file=file, mtime=mtime, frac=frac, method=method, range=rng, ims=ims, delta=delta, tz=tz,
-                via=via, prev=prev, kw=kw or {}, setup=setup)
+                via=via, prev=prev, kw=kw or {}, setup=setup, interleave=interleave)
 
 
 def pr(fname, mimetype='auto', charset='UTF-8', download=False):
@@ -181,6 +181,19 @@ def corpus():
         st(d10, via='app2', prev=dict(ims='Thu, 01 Jan 2099 00:00:00 GMT')),
         st(d10, via='app2', rng='bytes=0-1', prev=dict(range='bytes=5-6')),
         st(d10, via='app', prev=dict(range='bytes=2-4')), st(d10, via='direct', prev=dict(range='bytes=2-4')),
+        # the body of a response is still streamed while the same thread handles its next request (seeded change C17/15)
+        st(d10, via='app', interleave=True), st(d10, via='app', rng='bytes=2-7', interleave=True),
+        st(d10, via='app2', rng='bytes=2-7', interleave=True), st(d10, via='app', method='HEAD', interleave=True),
+        st(dict(len=default_maxread() * 2 + 7, mul=11), via='app', rng='bytes=5-', interleave=True),
+        st(dict(len=default_maxread() + 9, mul=13), via='app', interleave=True),
+        # byte-range-sets with many specs: the first one decides, however many follow (seeded change C17/16)
+        st(d10, rng='bytes=2-4,' + ','.join('%d-%d' % (i % 9, i % 9) for i in range(1))),
+        st(d10, rng='bytes=2-4,' + ','.join('%d-%d' % (i % 9, i % 9) for i in range(7))),
+        st(d10, rng='bytes=2-4,' + ','.join('%d-%d' % (i % 9, i % 9) for i in range(8))),
+        st(d10, rng='bytes=2-4,' + ','.join('%d-%d' % (i % 9, i % 9) for i in range(19))),
+        st(d10, rng='bytes=-3,' + ','.join('0-0' for i in range(99)), via='app'),
+        st(d10, rng='bytes=50-,' + ','.join('0-0' for i in range(9))), st(d10, rng='bytes=1-1' + ',' * 12, via='app'),
+        dict(kind='range', header='bytes=1-2,' + ','.join('0-0' for i in range(30)), maxlen=10),
         # configuring the DEFAULT application after import must not detach static_file from its requests (seeded change C17/14)
         st(d10, via='app', setup={}, rng='bytes=2-4'), st(d10, via='app', setup=dict(max_memfile_size=2048), method='HEAD'),
         st(d10, via='app', setup=dict(debug=True), ims='rfc1123', delta=0), st(d10, via='app', setup={}),
@@ -260,7 +273,14 @@ UNITS = ['bytes=', 'bytes=', 'bytes=', 'bytes=', 'bytes=', 'bytes=', 'xbytes=', 
          'bytes:', ' bytes=', 'bytes= ', 'bytes==', 'bytes=bytes=', '', '=', 'none', 'a=b,bytes=']
 
 
+def many_ranges(rng, L, n):
+    """a byte-range-set with n specs (n - 1 commas); the first spec decides"""
+    return 'bytes=' + ','.join(rnd_spec(rng, L) for _ in range(n))
+
+
 def rnd_range(rng, L):
+    if rng.random() < 0.08:
+        return many_ranges(rng, L, rng.choice([2, 3, 8, 9, 10, 20, 100]))
     r = rng.random()
     if r < 0.55:
         h = 'bytes=' + rnd_spec(rng, L)
@@ -333,7 +353,7 @@ def gen(rng, n):
             if rng.random() < 0.3:
                 kw = rng.choice([dict(download=True), dict(mimetype=None), dict(mimetype='text/plain', charset='latin1'),
                                  dict(download='x.bin', mimetype='application/x'), dict(charset='')])
-            yield st(file, mtime, frac, method, rg, ims, delta, tz, via, prev, kw, setup)
+            yield st(file, mtime, frac, method, rg, ims, delta, tz, via, prev, kw, setup, via != 'direct' and rng.random() < 0.4)
 
 
 def thorough():
@@ -405,12 +425,16 @@ def request_environ(method, rng, ims):
     return env
 
 
-def wsgi_call(app, env):
+def wsgi_call(app, env, between=None):
+    """between: called after the application returned its body iterable and BEFORE that iterable is consumed (a server
+    thread that starts its next request while the previous response is still being streamed)"""
     out = {}
 
     def start_response(status, headers, exc_info=None):
         out['status'], out['headers'] = status, headers
     it = app(env, start_response)
+    if between is not None:
+        between()
     try:
         body = b''.join(it)
     finally:
@@ -517,7 +541,14 @@ def run_impl(case):
                     resp = ombott.static_file(os.path.basename(path), tmpdir(), **kw_of(case))
                 else:
                     _CUR.update(name=os.path.basename(path), root=tmpdir(), kw=kw_of(case))
-                    wire = wsgi_call(app_for(case), request_environ(case['method'], case['range'], ims_header(case)))
+                    the_app = app_for(case)
+                    between = None
+                    if case.get('interleave'):
+                        def between():
+                            # the same thread handles another request (same route, plain GET and a Range) completely
+                            wsgi_call(the_app, request_environ('GET', None, None))
+                            wsgi_call(the_app, request_environ('GET', 'bytes=0-0', None))
+                    wire = wsgi_call(the_app, request_environ(case['method'], case['range'], ims_header(case)), between)
         finally:
             ss.parse_date = real_pd
             if had_open:
@@ -916,6 +947,8 @@ def shrink(case):
             yield dict(case, via='app2')
         if case.get('setup'):
             yield dict(case, setup={})
+        if case.get('interleave'):
+            yield dict(case, interleave=False)
 
 
 def _over_digit_limit(case, what, m):
@@ -941,6 +974,7 @@ API_SURFACE = [
     ('environ HTTP_IF_MODIFIED_SINCE', 'covered by kind static: absent, empty, three date forms, parameters, junk, epoch, time zones'),
     ('Globals.request / application binding', 'covered by kind static via=direct|app|app2|fresh with prev= (an earlier unrelated request on the default application)'),
     ('Ombott(config) / Ombott.setup(config)', 'covered by setup= on via=app|direct (default application reconfigured after import) and via=fresh (constructor)'),
+    ('streaming a body while the thread starts its next request', 'covered by interleave=True on via=app|app2|fresh (incl. two files larger than the streaming buffer)'),
     ('several calls in one process', 'covered: every case runs in one process, prev= makes the order adversarial; static_stream has no module-level state of its own'),
     ('common_helpers.parse_date', 'covered through kind static (argument recorded, result fed to the model; instants judged independently by the oracle under several TZ)'),
     ('Last-Modified / Date values', 'excluded: email.utils.formatdate output is not modelled; presence is compared'),
